@@ -234,7 +234,7 @@ def run_check(prop, argv):
                          'tools/translate.py (Gen/*.v)', 'extraction with ExtrOcamlBasic only + ocaml/driver.ml', 'Rust harness + generators', 'rustc/cargo, crates of Cargo.lock'] + list(prop.trusted_extra),
         'theorems': info['theorems'], 'translator': info['translator'],
         'evaluations': len(recs), 'distinct_nontrivial': distinct, 'rule': prop.rule,
-        'correspondence_cases_with_model_output': sum(1 for r in recs if r['model_k'] is not None and not str(r['model_k']).startswith('NOMODEL')),
+        'correspondence_cases_with_model_output': sum(1 for r in recs if r['model_k'] is not None and not str(r['model_k']).startswith('NOMODEL') and 'UNMODELLED' not in str(r['model_k'])),
         'correspondence_disagreements': len(disagreements), 'oracle_failures': len(oracle_fail),
         'known_finding_cases': {k: len(v) for k, v in allk.items()}, 'searched_cases_after_break': searched,
         'samples': [prop.describe(r['line']) + '  =>  ' + str(r['impl_raw'])[:200] for r in (recs[:2] + recs[len(recs) // 2:len(recs) // 2 + 2] + recs[-2:])],
